@@ -147,6 +147,21 @@ CLAIMED = {
         note="Trusted: probe projections; reset of global state between histories in the workers. Tract.__UID is not "
              "observable through the probes (creation order only matters for 'i' sorting, C17).",
         design_ref="§5.9, §6 C15"),
+    "C18": dict(
+        technique="TLA+ denotations of the filter criteria, the duplicate scan and the reverse popping, grouping, and an "
+                  "entry-path decision table; TLC-enumerated (list, operation) cases replayed on real containers; TLC trace "
+                  "validation of every observed result",
+        text="TLC checks for every list up to 3 elements (repeated instances, equal TRS, error/undefined components, "
+             "parsed/unparsed) x every filter / filter_errors / filter_duplicates operation x drop that the modelled scan "
+             "equals the denotation and selected + rest is an order-preserving partition (two injected faults are caught); "
+             "each case and random lists of 2..8 elements are executed on TractList / TRSList / PLSSDesc, group_by / "
+             "group_by_nested / unpack_group on 1..3 attributes, and 8 entry paths x 2 containers x 10 element kinds alone "
+             "and mixed; TLC compares selected / remaining / grouped elements with the denotation and applies the decision "
+             "table 'all acceptable => every element stored, converted, in order; otherwise TypeError'.",
+        note="Trusted: construction of elements from abstract shapes, identity-based position reporting (repeated instances "
+             "share a representative). Group order in the returned dict is not claimed. A dict passed to from_multiple is "
+             "an iterable of its keys and is not generated (R3).",
+        design_ref="§5.11, §6 C18"),
 }
 
 NOT_APPLICABLE = {
